@@ -2,6 +2,9 @@
 
 #include <yaclib/fault/config.hpp>
 #include <yaclib/fault/detail/fiber/scheduler.hpp>
+#ifdef YACLIB_VERIF
+#  include <yaclib/fault/detail/verif.hpp>
+#endif
 
 #include <cstdio>
 
@@ -87,10 +90,20 @@ void Scheduler::RunLoop() {
     if (_queue.Empty()) {
       AdvanceTime();
     }
+#ifdef YACLIB_VERIF
+    if (!_queue.Empty() && !_sleep_list.empty() && verif::gHooks.fire_timer != nullptr && verif::gHooks.fire_timer()) {
+      AdvanceTime();
+    }
+#endif
     WakeUpNeeded();
     auto* next = GetNext();
     sCurrent = next;
     TickTime();
+#ifdef YACLIB_VERIF
+    if (verif::gHooks.resumed != nullptr) {
+      verif::gHooks.resumed(next->GetId());
+    }
+#endif
     next->Resume();
     if (next->GetState() == detail::fiber::Completed && !next->IsThreadAlive()) {
       delete next;
@@ -145,6 +158,14 @@ void SetRandomListPick(std::uint32_t k) noexcept {
 }
 
 Node* PollRandomElementFromList(BiList& list) {
+#ifdef YACLIB_VERIF
+  if (verif::gHooks.pick != nullptr) {
+    if (auto* node = static_cast<Node*>(verif::gHooks.pick(&list)); node != nullptr) {
+      node->Erase();
+      return node;
+    }
+  }
+#endif
   auto rand_pos = detail::GetRandNumber(2 * sRandomListPick);
   auto reversed = false;
   if (rand_pos >= sRandomListPick) {
